@@ -521,3 +521,160 @@ Qed.
 Lemma encodings_geometry g sites split srt : g <> NPU ->
   geometry g GeomMap (map (geom_entry g) sites) split srt = geometry g ShankMap sites split srt.
 Proof. intros Hg. unfold geometry. now rewrite encodings_unsorted. Qed.
+
+(* ================================================================== *)
+(* restriction to one shank                                            *)
+(* ================================================================== *)
+Lemma where_eq_from_spec s v : forall k j,
+  In j (where_eq_from k s v) <-> (k <= j < k + Z.of_nat (length v) /\ nth (Z.to_nat (j - k)) v 0 = s).
+Proof.
+  induction v as [|a v IH]; intros k j; cbn [where_eq_from length].
+  - cbn. split; [tauto|lia].
+  - destruct (Z.eqb_spec a s) as [E|E].
+    + cbn [In]. rewrite IH. split.
+      * intros [<-|[Hr Hn]].
+        -- split; [lia|]. now rewrite Z.sub_diag.
+        -- split; [lia|]. replace (Z.to_nat (j - k)) with (S (Z.to_nat (j - (k + 1)))) by lia. exact Hn.
+      * intros [Hr Hn]. destruct (Z.eq_dec k j) as [->|Hne]; [now left|right].
+        split; [lia|]. replace (Z.to_nat (j - k)) with (S (Z.to_nat (j - (k + 1)))) in Hn by lia. exact Hn.
+    + rewrite IH. split.
+      * intros [Hr Hn]. split; [lia|].
+        replace (Z.to_nat (j - k)) with (S (Z.to_nat (j - (k + 1)))) by lia. exact Hn.
+      * intros [Hr Hn]. destruct (Z.eq_dec k j) as [->|Hne].
+        -- rewrite Z.sub_diag in Hn. cbn in Hn. contradiction.
+        -- split; [lia|].
+           replace (Z.to_nat (j - k)) with (S (Z.to_nat (j - (k + 1)))) in Hn by lia. exact Hn.
+Qed.
+
+Lemma where_eq_spec s v j : In j (where_eq s v) <-> (0 <= j < Z.of_nat (length v) /\ znth v j = s).
+Proof. unfold where_eq, znth. rewrite where_eq_from_spec. now rewrite Z.sub_0_r, Z.add_0_l. Qed.
+
+Lemma where_eq_from_increasing s v : forall k,
+  StronglySorted Z.lt (where_eq_from k s v) /\ Forall (fun j => k <= j) (where_eq_from k s v).
+Proof.
+  induction v as [|a v IH]; intros k; cbn [where_eq_from]; [split; constructor|].
+  destruct (IH (k + 1)) as [Hs Hf].
+  assert (Hf' : Forall (fun j => k < j) (where_eq_from (k + 1) s v))
+    by (eapply Forall_impl; [|exact Hf]; cbn; intros; lia).
+  destruct (a =? s).
+  - split; [constructor; assumption|]. constructor; [lia|].
+    eapply Forall_impl; [|exact Hf']; cbn; intros; lia.
+  - split; [assumption|]. eapply Forall_impl; [|exact Hf']; cbn; intros; lia.
+Qed.
+
+Lemma where_eq_increasing s v : StronglySorted Z.lt (where_eq s v).
+Proof. apply where_eq_from_increasing. Qed.
+
+(* the split geometry (unsorted): every column is the parent's column restricted to the
+   positions of that shank, in order; only the running index is renumbered *)
+Lemma split_is_restriction g e sites s t' : geometry_unsorted g e sites (Some s) = Some t' ->
+  exists t, geometry_unsorted g e sites None = Some t /\
+    let idx := where_eq s (g_shank t) in
+    g_shank t' = gather idx (g_shank t) /\ g_col t' = gather idx (g_col t) /\
+    g_row t' = gather idx (g_row t) /\ g_flag t' = gather idx (g_flag t) /\
+    g_x t' = gather idx (g_x t) /\ g_y t' = gather idx (g_y t) /\
+    g_shift t' = gather idx (g_shift t) /\ g_adc t' = gather idx (g_adc t) /\
+    g_ind t' = zrange (length idx) /\ gsize t' = length idx.
+Proof.
+  intros H. destruct (geometry_unsorted_inv _ _ _ _ _ H) as [q [Eq [Hl ->]]].
+  exists (with_ind (raw_geom g sites q)). split; [now apply (geometry_unsorted_intro g e sites None)|].
+  cbn. unfold gsize. cbn. rewrite gather_length. repeat split; reflexivity.
+Qed.
+
+(* ---- sorting commutes with the restriction ---- *)
+Lemma Permutation_filter_ {A} (p : A -> bool) l l' : Permutation l l' -> Permutation (filter p l) (filter p l').
+Proof.
+  induction 1 as [|x l l' _ IH|x y l|l l' l'' _ IH1 _ IH2]; cbn.
+  - constructor.
+  - destruct (p x); [now constructor|assumption].
+  - destruct (p x), (p y); try reflexivity. apply perm_swap.
+  - now rewrite IH1.
+Qed.
+
+Lemma StronglySorted_filter {A} (R : A -> A -> Prop) p l : StronglySorted R l -> StronglySorted R (filter p l).
+Proof.
+  induction 1 as [|a l Hs IH Ha]; cbn; [constructor|].
+  destruct (p a); [|assumption]. constructor; [assumption|].
+  rewrite Forall_forall in *. intros x Hx. apply filter_In in Hx. now apply Ha.
+Qed.
+
+Lemma where_eq_from_filter s v : forall k,
+  where_eq_from k s v = filter (fun j => nth (Z.to_nat (j - k)) v 0 =? s)
+                               (map (fun i => k + Z.of_nat i) (seq 0 (length v))).
+Proof.
+  induction v as [|a v IH]; intros k; [reflexivity|].
+  cbn [where_eq_from length seq map filter].
+  rewrite Z.add_0_r, Z.sub_diag. cbn [Z.to_nat nth].
+  rewrite IH, <- seq_shift, map_map.
+  assert (E : filter (fun j => nth (Z.to_nat (j - (k + 1))) v 0 =? s)
+                     (map (fun i => k + 1 + Z.of_nat i) (seq 0 (length v)))
+            = filter (fun j => nth (Z.to_nat (j - k)) (a :: v) 0 =? s)
+                     (map (fun x => k + Z.of_nat (S x)) (seq 0 (length v)))).
+  { induction (seq 0 (length v)) as [|i l IHl]; [reflexivity|]. cbn [map filter].
+    replace (Z.to_nat (k + 1 + Z.of_nat i - (k + 1))) with i by lia.
+    replace (Z.to_nat (k + Z.of_nat (S i) - k)) with (S i) by lia. cbn [nth].
+    replace (k + 1 + Z.of_nat i) with (k + Z.of_nat (S i)) by lia.
+    destruct (nth i v 0 =? s); [f_equal|]; exact IHl. }
+  rewrite E. reflexivity.
+Qed.
+
+Lemma where_eq_filter s v : where_eq s v = filter (fun j => znth v j =? s) (zrange (length v)).
+Proof.
+  unfold where_eq. rewrite where_eq_from_filter. unfold zrange, znth.
+  rewrite (map_ext (fun i => 0 + Z.of_nat i) Z.of_nat) by (intros; lia).
+  apply filter_ext. intros j. now rewrite Z.sub_0_r.
+Qed.
+
+Lemma StronglySorted_map_in (R R' : Z -> Z -> Prop) (f : Z -> Z) (P : Z -> Prop) l :
+  (forall a b, P a -> P b -> R a b -> R' (f a) (f b)) -> Forall P l ->
+  StronglySorted R l -> StronglySorted R' (map f l).
+Proof.
+  intros Hm Hp Hs. induction Hs as [|a l Hs IH Ha]; cbn; [constructor|].
+  inversion Hp as [|? ? Pa Pl]; subst. constructor; [now apply IH|].
+  rewrite Forall_forall in *. intros y Hy. apply in_map_iff in Hy as [x [<- Hx]].
+  apply Hm; auto.
+Qed.
+
+Lemma znth_increasing idx i j : StronglySorted Z.lt idx -> 0 <= i -> i < j -> j < Z.of_nat (length idx) ->
+  znth idx i < znth idx j.
+Proof. intros Hs H0 Hij Hj. unfold znth. apply StronglySorted_nth; [exact Hs|lia]. Qed.
+
+Lemma map_znth_zrange idx : map (znth idx) (zrange (length idx)) = idx.
+Proof.
+  induction idx as [|a idx IH] using rev_ind; [reflexivity|].
+  rewrite app_length, Nat.add_comm. cbn [length plus]. rewrite zrange_S, map_app. cbn [map].
+  f_equal.
+  - rewrite <- IH at 2. apply map_ext_in. intros i Hi. apply in_zrange in Hi.
+    unfold znth. apply app_nth1. lia.
+  - unfold znth. rewrite Nat2Z.id, app_nth2, Nat.sub_diag by lia. reflexivity.
+Qed.
+
+(* Sorting the split geometry = restricting the sorted parent: with idx the positions of
+   shank s in the parent, the parent positions of the sorted child are the sorted parent
+   index with the other shanks deleted. *)
+Lemma sort_commutes_with_split t s :
+  let idx := where_eq s (g_shank t) in
+  let t' := with_ind (gmap (gather idx) t) in
+  length (g_shank t) = gsize t ->
+  map (znth idx) (lexsort t') = filter (fun j => znth (g_shank t) j =? s) (lexsort t).
+Proof.
+  intros idx t' Hlen.
+  assert (Hsz : gsize t' = length idx) by (unfold t', gsize; cbn; apply gather_length).
+  assert (Hinc : StronglySorted Z.lt idx) by apply where_eq_increasing.
+  apply (sorted_perm_unique (sort_key t)).
+  - (* the child's order, transported to parent positions *)
+    apply StronglySorted_map_in with (R := before (sort_key t'))
+                                     (P := fun k => 0 <= k < Z.of_nat (gsize t')).
+    + intros a b Pa Pb Hab.
+      assert (Hk : forall k, 0 <= k < Z.of_nat (gsize t') -> sort_key t' k = sort_key t (znth idx k)).
+      { intros k Hk. unfold sort_key, t'. cbn. rewrite !znth_gather by (rewrite <- Hsz; exact Hk). reflexivity. }
+      unfold before in *. rewrite <- !Hk by assumption.
+      destruct Hab as [Hab|[He Hl]]; [now left|right]. split; [exact He|].
+      apply znth_increasing; [exact Hinc|lia|exact Hl|rewrite <- Hsz; lia].
+    + apply lexsort_range.
+    + apply lexsort_sorted.
+  - apply StronglySorted_filter, lexsort_sorted.
+  - rewrite (Permutation_filter_ _ _ _ (lexsort_perm t)).
+    rewrite (Permutation_map (znth idx) (lexsort_perm t')), Hsz, map_znth_zrange.
+    unfold idx. rewrite where_eq_filter, Hlen. reflexivity.
+Qed.
